@@ -266,7 +266,7 @@ def nt_c08(feat, script, canon):
 
 register(
     "C08",
-    lean_modules=["EventppVerif.Properties.C08", "EventppVerif.Properties.C08q", "EventppVerif.Properties.C17"],
+    lean_modules=["EventppVerif.Properties.C08", "EventppVerif.Properties.C08acyclic", "EventppVerif.Properties.C08q", "EventppVerif.Properties.C17"],
     fragments=["AnyDataFrag"],
     theorems=[],
     suites=[cl_suite("reent", 300, 8000, rule="the re-entrant callback-list programs of C02 (removal during invocation, nested invocations) and copy/move/swap histories with ledger-counted callback "
@@ -280,9 +280,9 @@ register(
             # "... and exceptions": the fault enumeration of C09, judged by the object ledger only
             lambda ctx, search=False: _c09.fault_suite(ctx, search, only="ledger", nq=6, nt=60)],
     level_text="Lean theorems: on the pointer model, with no traversal running exactly the live chain is reachable from head/tail (live nodes point only to live nodes), a removed node is "
-               "unreachable, moved-from / cleared objects retain nothing, clones retain exactly their fresh nodes (Properties/C08); on the queue model every slot is in exactly one list, "
+               "unreachable, moved-from / cleared objects retain nothing, clones retain exactly their fresh nodes (Properties/C08); the nodes the object does not retain form an acyclic graph under next/previous for every run of every behaviour, so reference counting releases them (Properties/C08acyclic); on the queue model every slot is in exactly one list, "
                "occupied iff it holds an event, set only on empty and cleared only on occupied slots, every event consumed exactly once (C08q, C05); AnyData ledger invariant (C17). "
                "Correspondence: ledger-counted callbacks and payloads compared with the models after every command, ASan/LSan.",
-    level_note="shared_ptr reference counting is trusted to release exactly the unreachable acyclic garbage; that removed nodes never form cycles is argued in DESIGN (edges between removed nodes follow removal time) and watched by LeakSanitizer, not proved; the exception clause is exercised by the fault enumeration of C09 judged by the ledger (its theorems are C09's)",
+    level_note="shared_ptr reference counting is trusted to release exactly the unreachable acyclic garbage; that removed nodes never form shared_ptr cycles is proved on the Model (C08_garbage_acyclic: edges between removed nodes strictly increase removal time, for every run of every behaviour) and watched by LeakSanitizer on the implementation; the exception clause is exercised by the fault enumeration of C09 judged by the ledger (its theorems are C09's)",
     design_ref="5.8",
 )
